@@ -22,8 +22,14 @@ def walk(node):
             "lo": walk(node.left), "hi": walk(node.right)}
 
 
-def plotly_rows(part, id1, id2):
-    df = part.to_plotly_dataframe(tree_id1=IDN[id1], tree_id2=IDN[id2] if id2 else None)
+def plotly_rows(part, id1, id2, maxd=0, named=False, d=0):
+    """maxd: max_depth argument (0 = not given); named: column names are passed and must label the splits"""
+    kw = {}
+    if maxd:
+        kw["max_depth"] = maxd
+    if named:
+        kw["input_cols"] = ["col%d" % i for i in range(d)]
+    df = part.to_plotly_dataframe(tree_id1=IDN[id1], tree_id2=IDN[id2] if id2 else None, **kw)
     pos = {}
     rows = []
     for k, r in enumerate(df.to_dict("records"), start=1):
@@ -33,8 +39,13 @@ def plotly_rows(part, id1, id2):
             side, paxis = "root", -1
         else:
             parts = name.split()
-            paxis = int(parts[1])
-            side = "le" if parts[2] == "<=" else "gt"
+            if named:
+                if not parts[0].startswith("col"):
+                    raise AssertionError("split not labelled with the given column name: %r" % name)
+                paxis, op = int(parts[0][3:]), parts[1]
+            else:
+                paxis, op = int(parts[1]), parts[2]
+            side = "le" if op == "<=" else "gt"
         rows.append({"parent": pos.get(r["parent_idx"], 0) if r["parent_idx"] is not None else 0,
                      "depth": int(r["depth"]), "cell": int(r["cell_count"]), "side": side, "paxis": paxis,
                      "diff": int(r["count_diff"]) if id2 else 0})
@@ -63,8 +74,9 @@ def session(cfgp, script):
         elif op == "kl":
             ev.append({"op": "kl", "id1": s[1], "id2": s[2], "kl": num(part.kl_distance(IDN[s[1]], IDN[s[2]]))})
         elif op == "plotly":
-            rows, kss = plotly_rows(part, s[1], s[2])
-            ev.append({"op": "plotly", "id1": s[1], "id2": s[2], "rows": rows, "kss": kss})
+            maxd, named = (s[3], s[4]) if len(s) > 3 else (0, False)
+            rows, kss = plotly_rows(part, s[1], s[2], maxd, named, len(script[0][1][0]))
+            ev.append({"op": "plotly", "id1": s[1], "id2": s[2], "rows": rows, "kss": kss, "maxd": int(maxd)})
     return {"cfg": cfgp, "ev": ev, "script": [list(x) for x in script]}
 
 
@@ -89,6 +101,8 @@ def random_session(rng, big=False):
     cfgp = {"ub": rng.choice([1, 2, 3, 5, 8, 20]), "lbnum": rng.choice([0, 0, 1, 1]), "lbden": rng.choice([4, 8, 2])}
     data = random_points(rng, n, d, style)
     script = [("build", data), ("plotly", 1, 0)]
+    if rng.random() < 0.3:
+        script.append(("plotly", 1, rng.choice([2, 3]), rng.choice([0, 2]), rng.random() < 0.5))    # compared with an id nothing was filled under yet
     filled = set()
     for _ in range(rng.randint(2, 6)):
         r = rng.random()
@@ -106,7 +120,7 @@ def random_session(rng, big=False):
             i = rng.choice(sorted(filled))
             script.append(("kl", 1, i))
             if rng.random() < 0.5:
-                script.append(("plotly", 1, i))
+                script.append(("plotly", 1, i, rng.choice([0, 0, 1, 2, 3, 6]), rng.random() < 0.4))
             if len(filled) == 2 and rng.random() < 0.5:
                 script.append(("kl", 2, 3))
                 script.append(("plotly", 2, 3))
